@@ -187,7 +187,9 @@ def run(ctx):
                 ctx.inconclusive("model self-test: LateListenerLeaks=TRUE should violate NoAcceptAfterStart, got %r %r" % (r.violated, r.error))
                 return
         elif name in ("mc_deviation_grace", "mc_deviation_failed"):
-            if r.violated != "ShortCompletes":
+            # a forgotten server makes Shutdown return at once: the work it cuts (ShortCompletes) is also still running
+            # at the return (NothingRunsAtReturn); with several workers TLC reports whichever it reaches first
+            if r.violated != "ShortCompletes" and not (name == "mc_deviation_failed" and r.violated == "NothingRunsAtReturn"):
                 ctx.inconclusive("model self-test: %s should violate ShortCompletes, got %r %r" % (name, r.violated, r.error))
                 return
         elif name == "mc_deviation_signal":
